@@ -11,6 +11,7 @@ package main
 import (
 	"fmt"
 	"reflect"
+	"strings"
 	"sync"
 	"time"
 	"unsafe"
@@ -113,9 +114,13 @@ func lockstep(env *vh.Env, rep *vh.Report, fams []*family) {
 		wg.Add(1)
 		go func(f *family) {
 			defer wg.Done()
+			dead := false
 			for _, lc := range lockstepCases(f) {
-				for r := 0; r < reps; r++ {
+				for r := 0; r < reps && !dead; r++ {
 					hist, why := lockstepRun(f, lc)
+					if strings.Contains(why, "did not finish") {
+						dead = true // do not pile up watchdog waits on a type that hangs
+					}
 					mu.Lock()
 					rep.Case(fmt.Sprintf("lockstep %s %v %v", f.typ, lc.prefill, lc.calls), true)
 					rep.Count("lockstep:runs")
@@ -142,7 +147,10 @@ func lockstep(env *vh.Env, rep *vh.Report, fams []*family) {
 
 func kindMethod(k string) string {
 	return map[string]string{"remFirst": "RemoveFirst", "remLast": "RemoveLast", "rem": "Remove", "put": "Put", "get": "Get",
-		"has": "Contains", "size": "Size", "empty": "IsEmpty", "clear": "Clear"}[k]
+		"has": "Contains", "size": "Size", "empty": "IsEmpty", "clear": "Clear",
+		"addFirst": "AddFirst", "addLast": "AddLast", "add": "Add", "qput": "Put", "qforce": "PutForce", "qget": "GetNoWait",
+		"qsize": "Size", "qclear": "Clear", "qsetcap": "SetCapacity", "qgetcap": "GetCapacity", "qput1": "Put1", "qput2": "Put2",
+		"qforce1": "PutForce1", "qforce2": "PutForce2", "qsize1": "Size1", "qsize2": "Size2"}[k]
 }
 
 func lockstepRun(f *family, lc lockstepCase) ([]hop, string) {
@@ -169,8 +177,8 @@ func lockstepRun(f *family, lc lockstepCase) ([]hop, string) {
 		}(g, c)
 		time.Sleep(2 * time.Millisecond) // park them in a known order
 	}
-	time.Sleep(10 * time.Millisecond)
-	l.Unlock()
+	time.Sleep(3 * time.Millisecond)
+	fifoRelease(l) // parked operations and their later Lock() calls are served in FIFO order
 	done := make(chan struct{})
 	go func() { wg.Wait(); close(done) }()
 	select {
